@@ -87,4 +87,23 @@ example : (∀ w ∈ exPlant, SwbOK w) ∧
   unfold SwbOK SrcOK BalOK
   decide +kernel
 
+/-- The plant of known finding D158 at the step where it shows: a 1000 kW generator sharing the load, a 400 kW
+consumer, a 500 kW battery that is *given* 50 kW with load-sharing mode `m`. -/
+def d158Plant (m : Rat) : List Swb :=
+  [{ id := 1, sources := [{ rated := 1000, status := true, share := 0 }],
+     balancers := [{ rated := 500, status := true, mode := m, given := 50 }], consumers := [400] }]
+
+/-- With mode 1 the bus balances (an instance of `balance`, evaluated)… -/
+theorem d158_mode_one_balances :
+    delivered (loadFrac (d158Plant 1)) (d158Plant 1) = drawn (loadFrac (d158Plant 1)) (d158Plant 1) := by
+  decide +kernel
+
+/-- **D158 in the model** (the model multiplies the given power by the mode in the net load, as the code
+does): with the fractional mode 1/2 the generator delivers 425 kW against 450 kW drawn — the hypothesis
+`SwbOK` of `balance` (modes 0 or 1 for storage and PTI/PTO) cannot be dropped. -/
+theorem d158_fractional_mode_gap :
+    delivered (loadFrac (d158Plant (1/2))) (d158Plant (1/2)) = 425 ∧
+    drawn (loadFrac (d158Plant (1/2))) (d158Plant (1/2)) = 450 := by
+  constructor <;> decide +kernel
+
 end Feems.Props.C01
